@@ -347,7 +347,7 @@ where
     }
     let x = Q::new(dec_amt(a[1]), u(a[0]));
     let y = Q::new(dec_amt(a[3]), u(a[2]));
-    Some(format!("{}|{}", cmp_group(&x, &y), cmp_group(&y, &x)))
+    Some(format!("{}|{}|{}", cmp_group(&x, &y), cmp_group(&y, &x), cmp_group(&x, &x)))
 }
 
 #[cfg(feature = "g_ser")]
